@@ -221,6 +221,18 @@ def score_table_tasks(P):
         P.verify(f"{OR}:_get_score_table", name=f"_get_score_table[{mode}]", contract=c, extra_contracts=ex)
 
 
+def matching_module_tasks(P):
+    """_get_matching_module: each mode selects ITS matching class, and larger-is-better exactly for the two IoU modes (shared with C02)"""
+    idx = P.index
+    MM = idx.lookup(f"{OM}:MatchingMode")
+    for mi, (mode, _) in enumerate(MM.enum_members(idx)):
+        cls = CLASSES[mode]
+        P.verify(f"{OR}:_get_matching_module", name=f"_get_matching_module[{mode}]",
+                 contract=Contract(f"{OR}:_get_matching_module", cut=False, params={"matching_mode": VEnum(MM, mi)},
+                                   ensures=E("the_matching_class_of_this_mode", f"result[0] is {cls}",
+                                             "larger_is_better_exactly_for_iou", f"result[1] == {mode.startswith('IOU')}")))
+
+
 def build(P):
     idx = P.index
     models(P)
@@ -284,6 +296,7 @@ def build(P):
             P.verify(f"{OR}:get_object_results", name=f"get_object_results[3-D, {mode}, {fam}]", contract=c, extra_contracts=extra)
     # ---------------------------------------------------------------- what the table cells mean: _get_score_table per matching class
     score_table_tasks(P)
+    matching_module_tasks(P)
 
     P.trust("numpy score-table operations as assumed contracts (externals/nptable.py); tie-breaking of nanargmin/nanargmax unspecified")
     P.assume("the estimate list and the ground-truth list each contain pairwise distinct objects (the property's 'sets')")
